@@ -349,7 +349,7 @@ template <class T> static void caseStepFunction(vh::Ctx& c, vh::Rng& r) {
         T prev = F.calcValue(Vector(1, x0));
         double worst = 0; int worstI = -1;
         double tolm[3];
-        for (int q = 0; q < TT<T>::N; ++q) tolm[q] = 8 * EPS * (std::fabs(TT<T>::get(y0, q)) + std::fabs(TT<T>::get(y1, q)));
+        for (int q = 0; q < TT<T>::N; ++q) tolm[q] = 64 * EPS * (std::fabs(TT<T>::get(y0, q)) + std::fabs(TT<T>::get(y1, q)));   // two evaluations, each good to ~31 units of rounding
         Vector x(1);
         for (int i = 1; i <= NG; ++i) {
             x[0] = i == NG ? x1 : x0 + xr * ((double)i / NG);
@@ -416,9 +416,9 @@ template <class P> static void caseStepHelpers(vh::Ctx& c, vh::Rng& r) {
         for (int i = 1; i <= NG; ++i) {
             P s = i == NG ? P(1) : (P)((double)i / NG);
             P v = stepUp(s), d = stepDown(s);
-            double back = std::max((double)prev - (double)v, (double)d - (double)prevD) / (8 * eps);
+            double back = std::max((double)prev - (double)v, (double)d - (double)prevD) / (64 * eps);   // rounding of two evaluations (coefficient sum 31)
             if (back > worst) { worst = back; wi = i; }
-            double out = std::max({-(double)v, (double)v - 1, -(double)d, (double)d - 1}) / (8 * eps);
+            double out = std::max({-(double)v, (double)v - 1, -(double)d, (double)d - 1}) / (64 * eps);
             worstRange = std::max(worstRange, out);
             prev = v; prevD = d;
         }
@@ -517,7 +517,7 @@ struct SplineJudge {
             T v = sp.calcValue(S.x[i]);
             for (int q = 0; q < TT<T>::N; ++q)
                 c.check("interp:spline:deg" + std::to_string(d) + ":" + TT<T>::name() + ":" + (i == 0 ? "first" : (i == n - 1 ? "last" : "interior")) + "-knot",
-                        std::fabs(TT<T>::get(v, q) - TT<T>::get(y[i], q)), 1e-9 * (cmax + 1e-300),
+                        std::fabs(TT<T>::get(v, q) - TT<T>::get(y[i], q)), 1e-10 * (cmax + 1e-300),
                         [&] { return wit(i, S.x[i]).set("lib", TT<T>::get(v, q)).set("y", TT<T>::get(y[i], q)).set("comp", q); });
         }
     }
@@ -536,7 +536,7 @@ struct SplineJudge {
                     scale += (LD)Sk(l, j) * fabsl(pw) / fac;
                 }
                 double resid = (double)fabsl((LD)TT<T>::get(lib, q) - pred);
-                c.check(where + ":spline:deg" + std::to_string(d) + ":" + TT<T>::name() + ":order" + std::to_string(k), resid, 1e-9 * (double)scale,
+                c.check(where + ":spline:deg" + std::to_string(d) + ":" + TT<T>::name() + ":order" + std::to_string(k), resid, 1e-12 * (double)scale,
                         [&] { return wit(l, t2).set("t1", t1).set("order", k).set("lib", TT<T>::get(lib, q)).set("predicted", (double)pred).set("comp", q); });
             }
         }
@@ -669,7 +669,7 @@ template <class T> static void caseSpline(vh::Ctx& c, vh::Rng& r, long idx) {
                 for (int k = 0; k <= S.degree; ++k) {
                     double a = k ? s1.calcDerivative(k, t) : s1.calcValue(t);
                     T vb = k ? sp.calcDerivative(k, t) : sp.calcValue(t);
-                    c.check("vec3-vs-scalar:spline:deg" + std::to_string(S.degree) + ":order" + std::to_string(k), std::fabs(a - TT<T>::get(vb, q)), 1e-9 * J.Sk(l, k),
+                    c.check("vec3-vs-scalar:spline:deg" + std::to_string(S.degree) + ":order" + std::to_string(k), std::fabs(a - TT<T>::get(vb, q)), 1e-12 * J.Sk(l, k),
                             [&] { return J.wit(l, t).set("scalar", a).set("vec3comp", TT<T>::get(vb, q)).set("comp", q); });
                 }
             }
